@@ -148,7 +148,11 @@ static int transition(const uint16_t *hist, int d, int opi, char *ckey, int verb
     sm_asan(OPS[opi].label);
     return 0;
 }
-static void initial(char *ckey) { int opt = POLICY == 0 ? QVECTOR_RESIZE_EXACT : POLICY == 1 ? QVECTOR_RESIZE_LINEAR : QVECTOR_RESIZE_DOUBLE; qvector_t *v = qvector(CAP0, OSZ, opt); canon(v, ckey); v->free(v); }
+static void ctor_probes(void) {   /* refused constructions */
+    errno = 0; qvector_t *v = qvector(4, 0, QVECTOR_RESIZE_DOUBLE);
+    if (v != NULL || errno != EINVAL) { vc_viol("array:ctor-einval", "qvector(max 4, objsize 0) not refused with EINVAL"); if (v) v->free(v); }
+}
+static void initial(char *ckey) { ctor_probes(); int opt = POLICY == 0 ? QVECTOR_RESIZE_EXACT : POLICY == 1 ? QVECTOR_RESIZE_LINEAR : QVECTOR_RESIZE_DOUBLE; qvector_t *v = qvector(CAP0, OSZ, opt); canon(v, ckey); v->free(v); }
 static void setup(void) {
     for (int i = 0; i < OSZ; i++) { ELB[0][i] = 0; ELB[1][i] = 0x11 + i; ELB[2][i] = 0xF0 - i; }
     NOPS = 0;
